@@ -2,7 +2,7 @@
    Statements only (copied from the lemma libraries); every proof is a bare
    `exact`; see the cited files in coq/proofs for the proofs. *)
 From Coq Require Import List NArith ZArith Bool Arith Sorting.Sorted Sorting.Permutation.
-From D2P Require Import Str Err Xml TableTypes Tables Fmt Bullets Merge Collector Walk Paths Package Content ShapeFacts TokFacts FrameFacts BulletsFacts OptionFacts Fmt Bullets Collector Walk ShapeFacts TokFacts FrameFacts MarkerFacts ReplaceFacts StandIns.
+From D2P Require Import Str Err Xml TableTypes Tables Fmt Bullets Merge Collector Walk Paths Package Content ShapeFacts TokFacts FrameFacts BulletsFacts OptionFacts Fmt Bullets Collector Walk ShapeFacts TokFacts FrameFacts MarkerFacts ReplaceFacts StandIns Fs FsFacts.
 Import ListNotations.
 
 (* every entry of images is the base name of an image relationship target mapped to the payload of the member that relationship resolves to *)
@@ -124,3 +124,59 @@ Theorem C11_marker_rendering :
   render html (image_marker target) = [45;45;45;45] ++ target ++ [45;45;45;45].
 Proof. exact image_marker_render. Qed.
 Print Assumptions C11_marker_rendering.
+
+(* WRITTEN TO THE IMAGE FOLDER (model/Fs.v: directories + files with content; mkdir(parents, exist_ok) and open(wb).write modelled): after save_images / construction with a folder, every entry of images is a file of that name in the folder with exactly those bytes (names distinct) *)
+Theorem C11_folder_written_exactly :
+  forall imgs d fs fs',
+  NoDup (map fst imgs) -> write_images imgs (Some d) fs = Some fs' ->
+  forall n b, In (n, b) imgs -> file_get (d ++ [n]) (fs_files fs') = Some b.
+Proof. exact write_images_writes. Qed.
+Print Assumptions C11_folder_written_exactly.
+
+(* and NOTHING ELSE is written or changed: every other path of the file system - inside or outside the folder - has the content it had before *)
+Theorem C11_nothing_else_written :
+  forall imgs d fs fs',
+  write_images imgs (Some d) fs = Some fs' ->
+  forall p, (forall n, In n (map fst imgs) -> p <> d ++ [n]) ->
+  file_get p (fs_files fs') = file_get p (fs_files fs).
+Proof. exact write_images_frame. Qed.
+Print Assumptions C11_nothing_else_written.
+
+(* the folder exists afterwards (it is created if necessary) *)
+Theorem C11_folder_created :
+  forall imgs d fs fs',
+  write_images imgs (Some d) fs = Some fs' -> is_dir fs' d = true.
+Proof. exact write_images_folder_created. Qed.
+Print Assumptions C11_folder_created.
+
+(* the only directories created are the folder and its missing ancestors *)
+Theorem C11_only_folder_and_ancestors_created :
+  forall imgs d fs fs',
+  write_images imgs (Some d) fs = Some fs' ->
+  forall q, is_dir fs' q = is_dir fs q || existsb (fpath_eqb q) (prefixes d).
+Proof. exact write_images_dirs. Qed.
+Print Assumptions C11_only_folder_and_ancestors_created.
+
+(* without a folder the file system is untouched *)
+Theorem C11_no_folder_no_write :
+  forall imgs fs, write_images imgs None fs = Some fs.
+Proof. exact write_images_no_folder. Qed.
+Print Assumptions C11_no_folder_no_write.
+
+(* writing succeeds whenever no ancestor of the folder is a file and no image name is a directory in it *)
+Theorem C11_write_succeeds :
+  forall imgs d fs,
+  (forall q, In q (prefixes d) -> is_file fs q = false) ->
+  (forall n, In n (map fst imgs) -> is_dir fs (d ++ [n]) = false) ->
+  exists fs', write_images imgs (Some d) fs = Some fs'.
+Proof. exact write_images_succeeds. Qed.
+Print Assumptions C11_write_succeeds.
+
+(* machine-checked example: a stale file of the same name is replaced, an unrelated file in the folder stays *)
+Theorem C11_stale_file_replaced_example :
+  let fs := {| fs_dirs := [[[116]]]; fs_files := [([[116]; [97]], 7%N); ([[116]; [122]], 9%N)] |} in
+  write_images [([97], 1%N); ([98], 2%N)] (Some [[116]]) fs
+  = Some {| fs_dirs := [[[116]]];
+            fs_files := [([[116]; [97]], 1%N); ([[116]; [122]], 9%N); ([[116]; [98]], 2%N)] |}.
+Proof. exact write_images_example. Qed.
+Print Assumptions C11_stale_file_replaced_example.
